@@ -23,8 +23,8 @@ Lemma dresolve (s : fsys) (sv : sview) (slm : slmode) (cs : list str) :
   walk_rel (f_heap s) (v_user (sv_view sv)) (v_root (sv_view sv)) (precise_of slm)
     (search_node s (sv_view sv) (abs_path cs) slm) (klookup s sv false (follow_of slm) (abs_path cs)).
 Proof.
-  intros [Hos Hwf Hlc Hrd] (Hg & Hk1 & Hk2 & Hnf).
-  apply (sym_bridge_lookup s sv slm cs Hos Hwf Hlc Hrd); auto.
+  intros [Hos Hwf Hlc Hrd] (Hg & Hk1 & Hnf).
+  exact (sym_bridge_lookup s sv slm cs Hos Hwf Hlc Hrd Hg Hk1 Hnf).
 Qed.
 
 Lemma dresolve_nosym (s : fsys) (sv : sview) (slm : slmode) (cs : list str) (c : nat) :
@@ -44,7 +44,7 @@ Theorem dstep_stat (s : fsys) (sv : sview) (slm : slmode) (cs : list str) :
   stat_sim (proj_res Linux (stat_gen slm s (sv_view sv) (abs_path cs)))
            (k_stat (follow_of slm) s sv (abs_path cs)).
 Proof.
-  intros H Hp. pose proof (dresolve s sv slm cs H Hp) as R. destruct Hp as (_ & _ & _ & Hnf).
+  intros H Hp. pose proof (dresolve s sv slm cs H Hp) as R. destruct Hp as (_ & _ & Hnf).
   unfold stat_gen, k_stat.
   destruct (klookup s sv false (follow_of slm) (abs_path cs)) as [par kind name n|par name md| |e]; cbn [walk_rel] in R.
   - destruct R as (R1 & R2 & R3 & _). rewrite R2, R1. cbn [is_file_exists negb].
@@ -61,7 +61,7 @@ Theorem dstep_readlink (s : fsys) (sv : sview) (cs : list str) :
   dac_hyps s sv -> path_ok s sv SlLstat cs ->
   proj_res Linux (readlink s (sv_view sv) (abs_path cs)) = k_readlink s sv (abs_path cs).
 Proof.
-  intros H Hp. pose proof (dresolve s sv SlLstat cs H Hp) as R. destruct Hp as (_ & _ & _ & Hnf).
+  intros H Hp. pose proof (dresolve s sv SlLstat cs H Hp) as R. destruct Hp as (_ & _ & Hnf).
   unfold readlink, k_readlink. change (follow_of SlLstat) with false in R.
   unfold win. rewrite (dh_os _ _ H). cbn [ostype_eqb].
   destruct (klookup s sv false false (abs_path cs)) as [par kind name n|par name md| |e]; cbn [walk_rel] in R.
@@ -78,7 +78,7 @@ Theorem dstep_chtimes (s : fsys) (sv : sview) (cs : list str) :
   dac_hyps s sv -> path_ok s sv SlEval cs ->
   proj_res Linux (chtimes s (sv_view sv) (abs_path cs)) = k_utimes s sv (abs_path cs).
 Proof.
-  intros H Hp. pose proof (dresolve s sv SlEval cs H Hp) as R. destruct Hp as (_ & _ & _ & Hnf).
+  intros H Hp. pose proof (dresolve s sv SlEval cs H Hp) as R. destruct Hp as (_ & _ & Hnf).
   unfold chtimes, k_utimes. change (follow_of SlEval) with true in R.
   destruct (klookup s sv false true (abs_path cs)) as [par kind name n|par name md| |e]; cbn [walk_rel] in R.
   - destruct R as (R1 & R2 & R3 & _). rewrite R2, R1. cbn [is_file_exists negb].
@@ -90,15 +90,10 @@ Proof.
     destruct (sr_child _); destruct Hc as [->|[->|[->| ->]]]; reflexivity.
 Qed.
 
-(* ---- Chmod: owner or administrator (EPERM) ------------------------------------------------------------------ *)
-(* the kernel clears S_ISGID in the requested mode when the caller is neither privileged nor a member of the
-   object's group; MemFS stores the requested mode as it is: the call is covered when that rule does not fire *)
-Definition chmod_keeps_setgid (s : fsys) (sv : sview) (cs : list str) (mode : N) : Prop :=
-  forall par kind name n, klookup s sv false true (abs_path cs) = WNode par kind name n ->
-    us_admin (v_user (sv_view sv)) = true
-    \/ m_gid (meta_of (f_heap s) n) = us_gid (v_user (sv_view sv))
-    \/ has mode MODE_SETGID = false.
-
+(* ---- Chmod: owner or administrator (EPERM); S_ISGID is dropped for an owner outside the object's group ------------- *)
+(* (the rule was missing from MemFS when these proofs were first attempted: the proof did not close, the witness became
+   the repository fix "Chmod by an owner who is not a member of the file's group clears the set-group-ID bit";
+   [chmod_mode] is that rule, the same expression as in chmod(2) of Posix.v) *)
 Lemma ldiff_has_false (x b : N) : has x b = false -> N.ldiff x b = x.
 Proof.
   unfold has. intros H. apply negb_false_iff, N.eqb_eq in H. apply N.bits_inj. intros i.
@@ -107,24 +102,17 @@ Proof.
 Qed.
 
 Theorem dstep_chmod (s : fsys) (sv : sview) (cs : list str) (mode : N) :
-  dac_hyps s sv -> path_ok s sv SlEval cs -> chmod_keeps_setgid s sv cs mode ->
+  dac_hyps s sv -> path_ok s sv SlEval cs ->
   (fst (chmod s (sv_view sv) (abs_path cs) mode), proj_res Linux (snd (chmod s (sv_view sv) (abs_path cs) mode)))
   = k_chmod s sv (abs_path cs) mode.
 Proof.
-  intros H Hp Hsg. pose proof (dresolve s sv SlEval cs H Hp) as R. destruct Hp as (_ & _ & _ & Hnf).
+  intros H Hp. pose proof (dresolve s sv SlEval cs H Hp) as R. destruct Hp as (_ & _ & Hnf).
   pose proof (dresolve_nosym s sv SlEval cs) as Hns.
-  unfold chmod, k_chmod. change (follow_of SlEval) with true in R. unfold chmod_keeps_setgid in Hsg.
+  unfold chmod, k_chmod, chmod_mode. change (follow_of SlEval) with true in R.
   destruct (klookup s sv false true (abs_path cs)) as [par kind name n|par name md| |e]; cbn [walk_rel] in R.
   - destruct R as (R1 & R2 & R3 & _). specialize (Hns n H eq_refl R1 R2). rewrite R2, R1. cbn [is_file_exists negb].
-    specialize (Hsg _ _ _ _ eq_refl). unfold meta_of in Hsg.
     destruct (get (f_heap s) n) as [nd|] eqn:Hgn; [|congruence].
-    assert (E : (if negb (us_admin (v_user (sv_view sv))) && negb (Z.eqb (m_gid (node_meta nd)) (us_gid (v_user (sv_view sv))))
-                 then N.ldiff mode MODE_SETGID else mode) = mode).
-    { destruct Hsg as [Ha|[Hm|Hb]].
-      - rewrite Ha. reflexivity.
-      - rewrite Hm, Z.eqb_refl, andb_false_r. reflexivity.
-      - rewrite (ldiff_has_false _ _ Hb). destruct (_ && _); reflexivity. }
-    rewrite E, set_mode_ok_owner_or_root.
+    rewrite set_mode_ok_owner_or_root.
     destruct nd as [ch m|dt k i m|t m]; [| |exfalso; exact (Hns t m eq_refl)]; cbn [node_meta];
       destruct (owner_or_root m (v_user (sv_view sv))); reflexivity.
   - destruct R as (R1 & R2 & _). rewrite R2, R1. reflexivity.
@@ -156,7 +144,7 @@ Theorem dstep_truncate (s : fsys) (sv : sview) (cs : list str) (size : Z) :
   (fst (truncate s (sv_view sv) (abs_path cs) size), proj_res Linux (snd (truncate s (sv_view sv) (abs_path cs) size)))
   = k_truncate s sv (abs_path cs) size.
 Proof.
-  intros H Hp Hpk. pose proof (dresolve s sv SlEval cs H Hp) as R. destruct Hp as (_ & _ & _ & Hnf).
+  intros H Hp Hpk. pose proof (dresolve s sv SlEval cs H Hp) as R. destruct Hp as (_ & _ & Hnf).
   unfold truncate, k_truncate, win. rewrite (dh_os _ _ H). cbn [ostype_eqb negb]. rewrite andb_true_r.
   destruct (Z.ltb size 0) eqn:Hsz; [reflexivity|].
   change (follow_of SlEval) with true in R. unfold file_privs_kept in Hpk.
@@ -180,7 +168,7 @@ Theorem dstep_mkdir (s : fsys) (sv : sview) (w : list str) (cl : str) (perm : N)
   (fst (mkdir s (sv_view sv) p perm), proj_res Linux (snd (mkdir s (sv_view sv) p perm))) = k_mkdir s sv p perm.
 Proof.
   intros H Hp Hsg p. pose proof (dresolve s sv SlLstat (w ++ [cl]) H Hp) as R.
-  destruct Hp as (Hg & Hk1 & _ & Hnf). change (follow_of SlLstat) with false in R, Hk1. change (precise_of SlLstat) with true in R.
+  destruct Hp as (Hg & Hk1 & Hnf). change (follow_of SlLstat) with false in R, Hk1. change (precise_of SlLstat) with true in R.
   destruct (klookup_pm s sv false w cl Hg Hk1) as (Hkn & Hkg & Hpm).
   unfold p. rewrite (mkdir_nonempty s (sv_view sv) _ perm (abs_path_nonempty _)). cbv zeta.
   unfold k_mkdir. rewrite Hpm. unfold no_setgid_parent in Hsg.
@@ -208,7 +196,7 @@ Theorem dstep_symlink (s : fsys) (sv : sview) (w : list str) (cl : str) (t : str
   = k_symlink s sv (clean Linux t) p.
 Proof.
   intros H Hp Hsg p. pose proof (dresolve s sv SlLstat (w ++ [cl]) H Hp) as R.
-  destruct Hp as (Hg & Hk1 & _ & Hnf). change (follow_of SlLstat) with false in R, Hk1. change (precise_of SlLstat) with true in R.
+  destruct Hp as (Hg & Hk1 & Hnf). change (follow_of SlLstat) with false in R, Hk1. change (precise_of SlLstat) with true in R.
   destruct (klookup_pm s sv false w cl Hg Hk1) as (Hkn & Hkg & Hpm).
   unfold p, symlink, k_symlink. rewrite Hpm. unfold no_setgid_parent in Hsg.
   pose proof (klookup_final s sv false (w ++ [cl]) Hg) as Hfin.
@@ -254,7 +242,7 @@ Theorem dstep_remove (s : fsys) (sv : sview) (w : list str) (cl : str) :
   (fst (remove s (sv_view sv) p), proj_res Linux (snd (remove s (sv_view sv) p))) = go_remove s sv p.
 Proof.
   intros H Hp Hss Hst p. pose proof (dresolve s sv SlLstat (w ++ [cl]) H Hp) as R.
-  destruct Hp as (Hg & Hk1 & _ & Hnf). change (follow_of SlLstat) with false in R, Hk1. change (precise_of SlLstat) with true in R.
+  destruct Hp as (Hg & Hk1 & Hnf). change (follow_of SlLstat) with false in R, Hk1. change (precise_of SlLstat) with true in R.
   destruct (klookup_pm s sv false w cl Hg Hk1) as (Hkn & Hkg & Hpm).
   unfold p, remove, go_remove, k_unlink, k_rmdir. rewrite Hpm. unfold no_sticky_refusal in Hst.
   pose proof (klookup_final s sv false (w ++ [cl]) Hg) as Hfin.
@@ -307,7 +295,7 @@ Theorem dstep_link (phl : bool) (s : fsys) (sv : sview) (co w : list str) (cl : 
 Proof.
   intros H Hpo Hp Hns Hph o p.
   pose proof (dresolve s sv SlLstat co H Hpo) as Ro. pose proof (dresolve s sv SlLstat (w ++ [cl]) H Hp) as R.
-  destruct Hpo as (Hgo & _ & _ & Hnfo). destruct Hp as (Hg & Hk1 & _ & Hnf).
+  destruct Hpo as (Hgo & _ & Hnfo). destruct Hp as (Hg & Hk1 & Hnf).
   change (follow_of SlLstat) with false in Ro, R, Hk1. change (precise_of SlLstat) with true in Ro, R.
   destruct (klookup_pm s sv false w cl Hg Hk1) as (Hkn & Hkg & Hpm).
   unfold o, p, link, k_link, win. rewrite (dh_os _ _ H). cbn [ostype_eqb]. unfold not_symlink in Hns. unfold link_permitted in Hph.
@@ -354,7 +342,7 @@ Theorem dstep_chdir (s : fsys) (sv : sview) (cs : list str) :
   | _, _ => False
   end.
 Proof.
-  intros H Hp. pose proof (dresolve s sv SlEval cs H Hp) as R. destruct Hp as (Hg & _ & _ & Hnf).
+  intros H Hp. pose proof (dresolve s sv SlEval cs H Hp) as R. destruct Hp as (Hg & _ & Hnf).
   pose proof (klookup_final s sv true cs Hg) as Hfin.
   unfold chdir, k_chdir, win, cwd_denotes. rewrite (dh_os _ _ H). cbn [ostype_eqb].
   change (follow_of SlEval) with true in R. change (precise_of SlEval) with true in R.
@@ -372,8 +360,17 @@ Proof.
 Qed.
 
 (* ---- OpenFile: every flag combination ------------------------------------------------------------------------ *)
+Lemma acc_cases (flag : N) :
+  (N.land flag 3 = 0 \/ N.land flag 3 = 1 \/ N.land flag 3 = 2 \/ N.land flag 3 = 3)%N.
+Proof.
+  assert (Hb : (N.land flag 3 < 4)%N).
+  { change 3%N with (N.ones 2). rewrite N.land_ones. apply N.mod_upper_bound. discriminate. }
+  lia.
+Qed.
+
+(* every value of the two access-mode bits, the invalid mode 3 (O_WRONLY|O_RDWR) included: both sides ask for
+   read and write there *)
 Lemma om_facts (flag : N) :
-  (N.land flag 3 < 3)%N ->
   let om := to_open_mode flag in
   let acc := N.land flag 3 in
   N.land om 7 = acc_mask acc false /\
@@ -382,11 +379,10 @@ Lemma om_facts (flag : N) :
   has om OpenCreateExcl = has flag O_CREATE && has flag O_EXCL /\
   has om OpenTruncate = has flag O_TRUNC /\
   has om OpenAppend = has flag O_APPEND /\
-  has om OpenWrite = (N.eqb acc 1 || N.eqb acc 2).
+  has om OpenWrite = (N.eqb acc 1 || N.eqb acc 2 || N.eqb acc 3).
 Proof.
-  intros Hacc. unfold to_open_mode. cbv zeta.
-  assert (Ha : (N.land flag 3 = 0 \/ N.land flag 3 = 1 \/ N.land flag 3 = 2)%N) by lia.
-  destruct Ha as [Ha|[Ha|Ha]]; rewrite Ha;
+  unfold to_open_mode. cbv zeta.
+  destruct (acc_cases flag) as [Ha|[Ha|[Ha|Ha]]]; rewrite Ha;
     destruct (has flag O_CREATE), (has flag O_EXCL), (has flag O_APPEND), (has flag O_TRUNC);
     vm_compute; repeat split; reflexivity.
 Qed.
@@ -571,23 +567,22 @@ Proof. reflexivity. Qed.
 (* opening an existing object: the access check by open mode, O_TRUNC needs write permission, a directory
    opens read-only *)
 Lemma oe_sim (s : fsys) (v : view) (vi : nat) (name : str) (flag : N) (c : nat) :
-  (N.land flag 3 < 3)%N -> get (f_heap s) c <> None -> (forall t m, get (f_heap s) c <> Some (NSym t m)) ->
+  get (f_heap s) c <> None -> (forall t m, get (f_heap s) c <> Some (NSym t m)) ->
   has flag O_CREATE && has flag O_EXCL = false ->
   (has flag O_TRUNC = true -> forall d k i m, get (f_heap s) c = Some (NFile d k i m) -> privs_kept (v_user v) m) ->
   open_sim (oe_impl s v vi name (to_open_mode flag) c)
            (oe_spec (v_user v) (has flag O_CREATE) (has flag O_TRUNC) (acc_mask (N.land flag 3) (has flag O_TRUNC)) s c false).
 Proof.
-  intros Hacc Hv Hns Hex Hpk.
-  destruct (om_facts flag Hacc) as (M1 & M2 & M3 & M4 & M5 & M6 & M7). cbv zeta in *.
+  intros Hv Hns Hex Hpk.
+  destruct (om_facts flag) as (M1 & M2 & M3 & M4 & M5 & M6 & M7). cbv zeta in *.
   unfold oe_impl, oe_spec. cbv zeta. rewrite M4, Hex, M5, M3, M7.
   destruct (get (f_heap s) c) as [[ch m|d k i m|t m]|] eqn:Hg; [| |exfalso; exact (Hns t m eq_refl)|congruence].
   - (* a directory *)
     destruct (has flag O_CREATE); [rewrite orb_true_r; split; reflexivity|]. rewrite orb_false_r.
     assert (Hw : negb (N.eqb (N.land (acc_mask (N.land flag 3) (has flag O_TRUNC)) 2) 0)
-                 = (N.eqb (N.land flag 3) 1 || N.eqb (N.land flag 3) 2) || has flag O_TRUNC).
-    { assert (Ha : (N.land flag 3 = 0 \/ N.land flag 3 = 1 \/ N.land flag 3 = 2)%N) by lia.
-      destruct Ha as [Ha|[Ha|Ha]]; rewrite Ha; destruct (has flag O_TRUNC); reflexivity. }
-    rewrite Hw. destruct ((N.eqb (N.land flag 3) 1 || N.eqb (N.land flag 3) 2) || has flag O_TRUNC) eqn:Hww; [split; reflexivity|].
+                 = (N.eqb (N.land flag 3) 1 || N.eqb (N.land flag 3) 2 || N.eqb (N.land flag 3) 3) || has flag O_TRUNC).
+    { destruct (acc_cases flag) as [Ha|[Ha|[Ha|Ha]]]; rewrite Ha; destruct (has flag O_TRUNC); reflexivity. }
+    rewrite Hw. destruct ((N.eqb (N.land flag 3) 1 || N.eqb (N.land flag 3) 2 || N.eqb (N.land flag 3) 3) || has flag O_TRUNC) eqn:Hww; [split; reflexivity|].
     apply orb_false_iff in Hww as (_ & Htr). rewrite Htr.
     rewrite (check_permission_node _ _ _ (to_open_mode flag) _ Hg), M1.
     destruct (kperm (f_heap s) c (acc_mask (N.land flag 3) false) (v_user v)); split; reflexivity.
@@ -615,12 +610,12 @@ Proof.
 Qed.
 
 Theorem dstep_open_nocreat (s : fsys) (sv : sview) (cs : list str) (flag perm : N) (vi : nat) :
-  dac_hyps s sv -> path_ok s sv SlEval cs -> (N.land flag 3 < 3)%N -> has flag O_CREATE = false ->
+  dac_hyps s sv -> path_ok s sv SlEval cs -> has flag O_CREATE = false ->
   (has flag O_TRUNC = true -> file_privs_kept s sv cs) ->
   open_sim (open_file s (sv_view sv) vi (abs_path cs) flag perm) (k_open s sv (abs_path cs) flag perm).
 Proof.
-  intros H Hp Hacc Hcr Hpk. pose proof (dresolve s sv SlEval cs H Hp) as R. destruct Hp as (Hg & _ & _ & Hnf).
-  destruct (om_facts flag Hacc) as (M1 & M2 & M3 & M4 & M5 & M6 & M7). cbv zeta in *.
+  intros H Hp Hcr Hpk. pose proof (dresolve s sv SlEval cs H Hp) as R. destruct Hp as (Hg & _ & Hnf).
+  destruct (om_facts flag) as (M1 & M2 & M3 & M4 & M5 & M6 & M7). cbv zeta in *.
   rewrite Hcr in M3, M4. cbn [andb] in M4.
   unfold abs_path at 1. rewrite open_file_eq. fold (abs_path cs). rewrite k_open_eq. cbv zeta.
   rewrite M4, M3, Hcr. cbv iota.
@@ -628,7 +623,7 @@ Proof.
   pose proof (dresolve_nosym s sv SlEval cs) as Hns.
   destruct (klookup s sv false true (abs_path cs)) as [par kind name n|par name md| |e] eqn:HK; cbn [walk_rel] in R.
   - destruct R as (R1 & R2 & R3 & _ & R4 & _). rewrite R1, R2, (R4 eq_refl). cbn [is_file_exists is_not_exist negb andb orb].
-    rewrite <- Hcr at 1. apply oe_sim; [exact Hacc|exact R3|exact (Hns n H eq_refl R1 R2)|rewrite Hcr; reflexivity|].
+    rewrite <- Hcr at 1. apply oe_sim; [exact R3|exact (Hns n H eq_refl R1 R2)|rewrite Hcr; reflexivity|].
     intros Htr d k i m Hgm. exact (Hpk Htr _ _ _ _ _ _ _ _ HK Hgm).
   - destruct R as (R1 & R2 & R3 & R4). destruct (at_name_views _ _ _ _ _ _ (R4 eq_refl)) as (V1 & V2 & _).
     rewrite R1, V2. cbn [is_file_exists is_not_exist negb andb orb]. split; reflexivity.
@@ -656,14 +651,14 @@ Qed.
 (* O_CREAT without O_EXCL: a final symbolic link is followed; an existing object is opened as above; a missing
    one is created in its directory: write + search permission there (EACCES), owner, group, mode & ~umask *)
 Theorem dstep_open_creat (s : fsys) (sv : sview) (w : list str) (cl : str) (flag perm : N) (vi : nat) :
-  dac_hyps s sv -> path_ok s sv SlEval (w ++ [cl]) -> (N.land flag 3 < 3)%N ->
+  dac_hyps s sv -> path_ok s sv SlEval (w ++ [cl]) ->
   has flag O_CREATE = true -> has flag O_EXCL = false ->
   (has flag O_TRUNC = true -> file_privs_kept s sv (w ++ [cl])) -> no_setgid_parent_follow s sv (w ++ [cl]) ->
   let p := abs_path (w ++ [cl]) in
   open_sim (open_file s (sv_view sv) vi p flag perm) (k_open s sv p flag perm).
 Proof.
-  intros H Hp Hacc Hcr Hex Hpk Hsg p. pose proof (dresolve s sv SlEval (w ++ [cl]) H Hp) as R. destruct Hp as (Hg & _ & _ & Hnf).
-  destruct (om_facts flag Hacc) as (M1 & M2 & M3 & M4 & M5 & M6 & M7). cbv zeta in *.
+  intros H Hp Hcr Hex Hpk Hsg p. pose proof (dresolve s sv SlEval (w ++ [cl]) H Hp) as R. destruct Hp as (Hg & _ & Hnf).
+  destruct (om_facts flag) as (M1 & M2 & M3 & M4 & M5 & M6 & M7). cbv zeta in *.
   rewrite Hcr in M3. rewrite Hcr, Hex in M4. cbn [andb] in M4.
   unfold p. unfold abs_path at 1. rewrite open_file_eq. fold (abs_path (w ++ [cl])). rewrite k_open_eq. cbv zeta.
   rewrite M4, M3, Hcr, Hex. cbv iota. cbn [negb].
@@ -675,7 +670,7 @@ Proof.
   - cbv iota.
     destruct (klookup s sv false true (abs_path (w ++ [cl]))) as [par kind name n|par name md| |e] eqn:HK; cbn [walk_rel] in R.
     + destruct R as (R1 & R2 & R3 & _ & R4 & _). rewrite R1, R2, (R4 eq_refl). cbn [is_file_exists is_not_exist negb andb orb].
-      rewrite <- Hcr at 1. apply oe_sim; [exact Hacc|exact R3|exact (Hns n H eq_refl R1 R2)|rewrite Hex; apply andb_false_r|].
+      rewrite <- Hcr at 1. apply oe_sim; [exact R3|exact (Hns n H eq_refl R1 R2)|rewrite Hex; apply andb_false_r|].
       intros Htr d k i m Hgm. exact (Hpk Htr _ _ _ _ _ _ _ _ HK Hgm).
     + destruct R as (R1 & R2 & R3 & R4). destruct (at_name_views _ _ _ _ _ _ (R4 eq_refl)) as (V1 & V2 & _).
       destruct Hfin as (F1 & _).
@@ -694,15 +689,15 @@ Definition excl_existing_accessible (s : fsys) (sv : sview) (cs : list str) (fla
     kperm (f_heap s) n (acc_mask (N.land flag 3) (has flag O_TRUNC)) (v_user (sv_view sv)) = true.
 
 Theorem dstep_open_excl (s : fsys) (sv : sview) (w : list str) (cl : str) (flag perm : N) (vi : nat) :
-  dac_hyps s sv -> path_ok s sv SlLstat (w ++ [cl]) -> (N.land flag 3 < 3)%N ->
+  dac_hyps s sv -> path_ok s sv SlLstat (w ++ [cl]) ->
   has flag O_CREATE = true -> has flag O_EXCL = true ->
   excl_existing_accessible s sv (w ++ [cl]) flag -> no_setgid_parent s sv (w ++ [cl]) ->
   let p := abs_path (w ++ [cl]) in
   open_sim (open_file s (sv_view sv) vi p flag perm) (k_open s sv p flag perm).
 Proof.
-  intros H Hp Hacc Hcr Hex Hea Hsg p. pose proof (dresolve s sv SlLstat (w ++ [cl]) H Hp) as R.
-  destruct Hp as (Hg & Hk1 & _ & Hnf).
-  destruct (om_facts flag Hacc) as (M1 & M2 & M3 & M4 & M5 & M6 & M7). cbv zeta in *.
+  intros H Hp Hcr Hex Hea Hsg p. pose proof (dresolve s sv SlLstat (w ++ [cl]) H Hp) as R.
+  destruct Hp as (Hg & Hk1 & Hnf).
+  destruct (om_facts flag) as (M1 & M2 & M3 & M4 & M5 & M6 & M7). cbv zeta in *.
   rewrite Hcr in M3. rewrite Hcr, Hex in M4. cbn [andb] in M4.
   change (follow_of SlLstat) with false in R, Hk1. change (precise_of SlLstat) with true in R.
   destruct (klookup_pm s sv false w cl Hg Hk1) as (Hkn & Hkg & Hpm).
@@ -785,7 +780,7 @@ Theorem dstep_rename_file_new (s : fsys) (sv : sview) (wo : list str) (clo : str
 Proof.
   intros H Hpo Hp Hnd Hab Hone Hst o p.
   pose proof (dresolve s sv SlLstat (wo ++ [clo]) H Hpo) as Ro. pose proof (dresolve s sv SlLstat (w ++ [cl]) H Hp) as R.
-  destruct Hpo as (Hgo & Hko1 & _ & Hnfo). destruct Hp as (Hg & Hk1 & _ & Hnf).
+  destruct Hpo as (Hgo & Hko1 & Hnfo). destruct Hp as (Hg & Hk1 & Hnf).
   change (follow_of SlLstat) with false in Ro, R, Hk1, Hko1. change (precise_of SlLstat) with true in Ro, R.
   destruct (klookup_pm s sv false wo clo Hgo Hko1) as (Hokn & Hokg & Hopm).
   destruct (klookup_pm s sv false w cl Hg Hk1) as (Hkn & Hkg & Hpm).
@@ -868,7 +863,7 @@ Theorem dstep_rename_dir_new (s : fsys) (sv : sview) (wo : list str) (clo : str)
 Proof.
   intros H Hpo Hp Hnd Hab Hone Hst Hni Hmw o p.
   pose proof (dresolve s sv SlLstat (wo ++ [clo]) H Hpo) as Ro. pose proof (dresolve s sv SlLstat (w ++ [cl]) H Hp) as R.
-  destruct Hpo as (Hgo & Hko1 & _ & Hnfo). destruct Hp as (Hg & Hk1 & _ & Hnf).
+  destruct Hpo as (Hgo & Hko1 & Hnfo). destruct Hp as (Hg & Hk1 & Hnf).
   change (follow_of SlLstat) with false in Ro, R, Hk1, Hko1. change (precise_of SlLstat) with true in Ro, R.
   destruct (klookup_pm s sv false wo clo Hgo Hko1) as (Hokn & Hokg & Hopm).
   destruct (klookup_pm s sv false w cl Hg Hk1) as (Hkn & Hkg & Hpm).
@@ -957,7 +952,7 @@ Theorem dstep_rename_replace_result (s : fsys) (sv : sview) (wo : list str) (clo
 Proof.
   intros H Hpo Hp Hnd (npar & nkind & nname & nc & HK) Hdn Hdist Hst Hstn o p.
   pose proof (dresolve s sv SlLstat (wo ++ [clo]) H Hpo) as Ro. pose proof (dresolve s sv SlLstat (w ++ [cl]) H Hp) as R.
-  destruct Hpo as (Hgo & Hko1 & _ & Hnfo). destruct Hp as (Hg & Hk1 & _ & Hnf).
+  destruct Hpo as (Hgo & Hko1 & Hnfo). destruct Hp as (Hg & Hk1 & Hnf).
   change (follow_of SlLstat) with false in Ro, R, Hk1, Hko1. change (precise_of SlLstat) with true in Ro, R.
   destruct (klookup_pm s sv false wo clo Hgo Hko1) as (Hokn & Hokg & Hopm).
   destruct (klookup_pm s sv false w cl Hg Hk1) as (Hkn & Hkg & Hpm).
@@ -1032,7 +1027,6 @@ Qed.
 
 (* ---- the step theorem at the level of worlds, any user ----------------------------------------------------------- *)
 Definition open_covered (s : fsys) (sv : sview) (p : str) (flag : N) : Prop :=
-  (N.land flag 3 < 3)%N /\
   ((has flag O_CREATE = false /\ exists cs, p = abs_path cs /\ path_ok s sv SlEval cs
       /\ (has flag O_TRUNC = true -> file_privs_kept s sv cs))
    \/ (has flag O_CREATE = true /\ has flag O_EXCL = false /\ exists w cl, p = abs_path (w ++ [cl])
@@ -1051,7 +1045,7 @@ Definition dcovered (phl : bool) (vi : nat) (sw : sworld) (c : call) : Prop :=
   | CLstat vi' p => vi' = vi /\ exists cs, p = abs_path cs /\ path_ok s sv SlLstat cs
   | CReadlink vi' p => vi' = vi /\ exists cs, p = abs_path cs /\ path_ok s sv SlLstat cs
   | CChtimes vi' p => vi' = vi /\ exists cs, p = abs_path cs /\ path_ok s sv SlEval cs
-  | CChmod vi' p mode => vi' = vi /\ exists cs, p = abs_path cs /\ path_ok s sv SlEval cs /\ chmod_keeps_setgid s sv cs mode
+  | CChmod vi' p mode => vi' = vi /\ exists cs, p = abs_path cs /\ path_ok s sv SlEval cs
   | CTruncate vi' p _ => vi' = vi /\ exists cs, p = abs_path cs /\ path_ok s sv SlEval cs /\ file_privs_kept s sv cs
   | CMkdir vi' p _ =>
       vi' = vi /\ exists w cl, p = abs_path (w ++ [cl]) /\ path_ok s sv SlLstat (w ++ [cl])
@@ -1120,22 +1114,22 @@ Section DStepEqns.
     impl_step_proj w c = (with_fs w (fst f), proj_res Linux (snd f)) ->
     spec_step phl sw c = ({| sw_fs := fst g; sw_sv := sw_sv sw |}, snd g) ->
     (fst f, proj_res Linux (snd f)) = g ->
-    stat_sim (snd (impl_step_proj w c)) (snd (spec_step phl sw c))
+    obs_sim (snd (impl_step_proj w c)) (snd (spec_step phl sw c))
     /\ absw (fst (impl_step_proj w c)) vi (fst (spec_step phl sw c)).
   Proof.
-    intros Ei Es E. rewrite Ei, Es, <- E. cbn [fst snd]. split; [apply stat_sim_refl|]. exact (absw_with_fs w vi sw _ Ha).
+    intros Ei Es E. rewrite Ei, Es, <- E. cbn [fst snd]. split; [apply obs_sim_refl|]. exact (absw_with_fs w vi sw _ Ha).
   Qed.
 
   Lemma dworld_of_ro (c : call) (r : res) (g : pres) :
-    impl_step_proj w c = (w, proj_res Linux r) -> spec_step phl sw c = (sw, g) -> stat_sim (proj_res Linux r) g ->
-    stat_sim (snd (impl_step_proj w c)) (snd (spec_step phl sw c))
+    impl_step_proj w c = (w, proj_res Linux r) -> spec_step phl sw c = (sw, g) -> obs_sim (proj_res Linux r) g ->
+    obs_sim (snd (impl_step_proj w c)) (snd (spec_step phl sw c))
     /\ absw (fst (impl_step_proj w c)) vi (fst (spec_step phl sw c)).
   Proof. intros Ei Es E. rewrite Ei, Es. cbn [fst snd]. split; [exact E|exact Ha]. Qed.
 End DStepEqns.
 
 Theorem dstep_world (phl : bool) (w : world) (vi : nat) (sw : sworld) (c : call) :
   absw w vi sw -> dcovered phl vi sw c ->
-  stat_sim (snd (impl_step_proj w c)) (snd (spec_step phl sw c))
+  obs_sim (snd (impl_step_proj w c)) (snd (spec_step phl sw c))
   /\ absw (fst (impl_step_proj w c)) vi (fst (spec_step phl sw c)).
 Proof.
   intros Ha (H & Hc). pose proof Ha as (Hfs & Hv).
@@ -1147,7 +1141,7 @@ Proof.
     + reflexivity.
     + rewrite <- Hfs, Ep. exact (dstep_mkdir (sw_fs sw) (sw_sv sw) ww cl perm H Hp Hsg).
   - (* OpenFile *)
-    destruct Hc as (-> & Hacc & Hoc).
+    destruct Hc as (-> & Hoc).
     assert (OS : open_sim (open_file (w_fs w) (sv_view (sw_sv sw)) vi p flag perm) (k_open (sw_fs sw) (sw_sv sw) p flag perm)).
     { rewrite <- Hfs. destruct Hoc as [(Hcr & cs & -> & Hp & Hpk)|[(Hcr & Hex & ww & cl & -> & Hp & Hpk & Hsg)|(Hcr & Hex & ww & cl & -> & Hp & Hea & Hsg)]].
       - apply dstep_open_nocreat; assumption.
@@ -1157,8 +1151,8 @@ Proof.
     unfold impl_step_proj. cbn [wstep spec_step]. unfold on_view. rewrite Hv.
     destruct (open_file (w_fs w) (sv_view (sw_sv sw)) vi p flag perm) as [s1 [r|f]];
       destruct (k_open (sw_fs sw) (sw_sv sw) p flag perm) as [s2 [e|c]]; destruct OS as (O1 & O2); cbn [fst snd] in *; try contradiction; subst s2.
-    + split; [|split; [reflexivity|exact Hv]]. left. specialize (HK r eq_refl). destruct r; try exact O2. exfalso. exact (HK _ eq_refl).
-    + split; [left; reflexivity|split; [reflexivity|exact Hv]].
+    + split; [|split; [reflexivity|exact Hv]]. left. left. specialize (HK r eq_refl). destruct r; try exact O2. exfalso. exact (HK _ eq_refl).
+    + split; [apply obs_sim_refl|split; [reflexivity|exact Hv]].
   - (* Remove *)
     destruct Hc as (-> & Hss & ww & cl & Ep & Hp & Hst).
     apply (dworld_of_lift phl w vi sw Ha _ (remove (w_fs w) (sv_view (sw_sv sw)) p) (go_remove (sw_fs sw) (sw_sv sw) p)).
@@ -1192,7 +1186,7 @@ Proof.
     apply (dworld_of_ro phl w vi sw Ha _ (readlink (w_fs w) (sv_view (sw_sv sw)) p) (k_readlink (sw_fs sw) (sw_sv sw) p)).
     + apply (impl_ro w _ _ (wstep_readlink w vi _ Hv p)). exact I.
     + reflexivity.
-    + rewrite <- Hfs, Ep, (dstep_readlink (sw_fs sw) (sw_sv sw) cs H Hp). apply stat_sim_refl.
+    + rewrite <- Hfs, Ep, (dstep_readlink (sw_fs sw) (sw_sv sw) cs H Hp). apply obs_sim_refl.
   - (* Truncate *)
     destruct Hc as (-> & cs & Ep & Hp & Hpk).
     apply (dworld_of_lift phl w vi sw Ha _ (truncate (w_fs w) (sv_view (sw_sv sw)) p size) (k_truncate (sw_fs sw) (sw_sv sw) p size)).
@@ -1200,29 +1194,29 @@ Proof.
     + reflexivity.
     + rewrite <- Hfs, Ep. exact (dstep_truncate (sw_fs sw) (sw_sv sw) cs size H Hp Hpk).
   - (* Chmod *)
-    destruct Hc as (-> & cs & Ep & Hp & Hsg).
+    destruct Hc as (-> & cs & Ep & Hp).
     apply (dworld_of_lift phl w vi sw Ha _ (chmod (w_fs w) (sv_view (sw_sv sw)) p mode) (k_chmod (sw_fs sw) (sw_sv sw) p mode)).
     + apply (impl_lift w _ _ (wstep_chmod w vi _ Hv p mode)); [left; discriminate|exact I].
     + reflexivity.
-    + rewrite <- Hfs, Ep. exact (dstep_chmod (sw_fs sw) (sw_sv sw) cs mode H Hp Hsg).
+    + rewrite <- Hfs, Ep. exact (dstep_chmod (sw_fs sw) (sw_sv sw) cs mode H Hp).
   - (* Chtimes *)
     destruct Hc as (-> & cs & Ep & Hp).
     apply (dworld_of_ro phl w vi sw Ha _ (chtimes (w_fs w) (sv_view (sw_sv sw)) p) (k_utimes (sw_fs sw) (sw_sv sw) p)).
     + apply (impl_ro w _ _ (wstep_chtimes w vi _ Hv p)). exact I.
     + reflexivity.
-    + rewrite <- Hfs, Ep, (dstep_chtimes (sw_fs sw) (sw_sv sw) cs H Hp). apply stat_sim_refl.
+    + rewrite <- Hfs, Ep, (dstep_chtimes (sw_fs sw) (sw_sv sw) cs H Hp). apply obs_sim_refl.
   - (* Stat *)
     destruct Hc as (-> & cs & Ep & Hp).
     apply (dworld_of_ro phl w vi sw Ha _ (stat_gen SlStat (w_fs w) (sv_view (sw_sv sw)) p) (k_stat true (sw_fs sw) (sw_sv sw) p)).
     + apply (impl_ro w _ _ (wstep_stat w vi _ Hv p)). exact I.
     + reflexivity.
-    + rewrite <- Hfs, Ep. exact (dstep_stat (sw_fs sw) (sw_sv sw) SlStat cs H Hp).
+    + rewrite <- Hfs, Ep. left. exact (dstep_stat (sw_fs sw) (sw_sv sw) SlStat cs H Hp).
   - (* Lstat *)
     destruct Hc as (-> & cs & Ep & Hp).
     apply (dworld_of_ro phl w vi sw Ha _ (stat_gen SlLstat (w_fs w) (sv_view (sw_sv sw)) p) (k_stat false (sw_fs sw) (sw_sv sw) p)).
     + apply (impl_ro w _ _ (wstep_lstat w vi _ Hv p)). exact I.
     + reflexivity.
-    + rewrite <- Hfs, Ep. exact (dstep_stat (sw_fs sw) (sw_sv sw) SlLstat cs H Hp).
+    + rewrite <- Hfs, Ep. left. exact (dstep_stat (sw_fs sw) (sw_sv sw) SlLstat cs H Hp).
 Qed.
 
 (* ---- histories: C03_step by induction over call lists ---------------------------------------------------------- *)
@@ -1241,7 +1235,7 @@ Fixpoint dcovered_run (phl : bool) (vi : nat) (sw : sworld) (cs : list call) : P
 
 Theorem dhistory_world (phl : bool) (vi : nat) : forall (cs : list call) (w : world) (sw : sworld),
   absw w vi sw -> dcovered_run phl vi sw cs ->
-  Forall2 stat_sim (snd (impl_run w cs)) (snd (spec_run_phl phl sw cs))
+  Forall2 obs_sim (snd (impl_run w cs)) (snd (spec_run_phl phl sw cs))
   /\ absw (fst (impl_run w cs)) vi (fst (spec_run_phl phl sw cs)).
 Proof.
   induction cs as [|c cs IH]; intros w sw Ha Hc.
